@@ -1732,8 +1732,24 @@ class TemplateText:
             elif isinstance(n, ast.AugAssign) and name in _target_names(n.target):
                 out.append(None)
             elif isinstance(n, (ast.For, ast.AsyncFor)) and name in _target_names(n.target):
-                if isinstance(n.target, (ast.Tuple, ast.List)) and groups_attr(n.iter) is not None:
-                    tuple_pos(n.target, groups_attr(n.iter))
+                tgt, it = n.target, n.iter
+                q = self.p.resolve_callable(f, it.func) if isinstance(it, ast.Call) and isinstance(it.func, (ast.Name, ast.Attribute)) else None
+                if q == 'builtins.enumerate' and isinstance(n, ast.For):
+                    # `for i, elem in enumerate(seq[, start])`: i is an int counter, elem an element of seq
+                    if not (isinstance(tgt, (ast.Tuple, ast.List)) and len(tgt.elts) == 2 and 1 <= len(it.args) <= 2
+                            and not any(isinstance(a, ast.Starred) for a in it.args) and all(k.arg == 'start' for k in it.keywords)):
+                        out.append(None)
+                        continue
+                    if isinstance(tgt.elts[0], ast.Name) and tgt.elts[0].id == name:
+                        out.append(INT_TXT)
+                        continue
+                    tgt, it = tgt.elts[1], it.args[0]
+                elif q == 'builtins.range' and isinstance(tgt, ast.Name):
+                    out.append(INT_TXT)
+                    continue
+                if isinstance(tgt, (ast.Tuple, ast.List)) and groups_attr(it) is not None and name in [
+                        e.id if isinstance(e, ast.Name) else None for e in tgt.elts]:
+                    tuple_pos(tgt, groups_attr(it))
                 else:
                     out.append(None)
             elif isinstance(n, ast.NamedExpr) and isinstance(n.target, ast.Name) and n.target.id == name:
